@@ -99,6 +99,25 @@ Proof.
 Qed.
 Print Assumptions C14_acyclicb_no_cycle.
 
+(* 6''. The property oracle of the case checker (C14/Check.v judgement 2: nodupb, has_history,
+        completeness of the requests, members_firstb on graphs accepted by acyclicb) is made of the
+        predicates of theorems 2, 3, 4, 6 ([nodupb l = true <-> NoDup l], [members_firstb = true <->
+        cf]) and holds of the model's own output for every graph: an implementation whose
+        emission sequence equals the model's (judgement 1) cannot fail judgement 2. *)
+Theorem C14_oracle_holds_of_model : forall ds nodes fuel ids s out,
+  order ds fuel ids = (s, out) ->
+  (forall id, has_history ds id = true -> In id nodes) ->
+  nodupb out = true /\
+  forallb (has_history ds) out = true /\
+  (s = SOk -> forallb (fun r => negb (has_history ds r) || memZ r out) ids = true) /\
+  (acyclicb ds nodes = true -> members_firstb ds [] out = true).
+Proof. exact oracle_holds_of_model. Qed.
+Print Assumptions C14_oracle_holds_of_model.
+
+Theorem C14_oracle_predicates : (forall l, nodupb l = true <-> NoDup l) /\
+  (forall ds l before, members_firstb ds before l = true <-> cf ds before l).
+Proof. split; [exact nodupb_NoDup|exact members_firstb_cf]. Qed.
+
 (* 7. Close or context cancellation at any point.  The transition system of Model.v runs the
       producer's PROGRAM -- the finite sequence of datasource lookups and sends the walk performs,
       [program ds fuel ids]; its sends are exactly the ids of theorems 1-6 (7a) -- against a
